@@ -457,8 +457,13 @@ def _classify_rewrite(k, t1, t2):
         return "entries:%s" % (sym_tag(k, odd[0]) if odd else "order")
     for a, b in zip(e1, e2):
         if a[1] != b[1]:
-            return "value:%s" % sym_tag(k, a[0])
+            return "value:%s%s" % (sym_tag(k, a[0]), _C02_SET_SYM if numeric_set_sym_target(k, a[0]) else "")
     return "other"
+
+
+# class suffixes that name a root cause recorded in KNOWN_FINDINGS (suffix only, the oracles do not look at them)
+_C02_SET_SYM = ":numeric-target-of-set-with-symbol-operand"
+_C02_INJECTED = ":writer-injected-default"
 
 
 def _c02_roundtrip(out, w, tree, A, snap_a, pfx, wkw, lkw):
@@ -473,16 +478,36 @@ def _c02_roundtrip(out, w, tree, A, snap_a, pfx, wkw, lkw):
     diag = diagnostics(B)
     snap_b = lib("snapshot", snap, B)
     out.evals += 3
+    inj = None
     d = dict_diff(snap_a, snap_b)
     if d:
-        kinds = sorted({diff_kind(B, n, x, y) for n, x, y in d if y != "<absent>"})
-        out.bad("%s:reload:%s" % (tag, kinds[0] if kinds else "absent"), C02_CONTRACTS[0],
+        kinds = sorted({(diff_kind(B, n, x, y), n) for n, x, y in d if y != "<absent>"})
+        kind = kinds[0][0] if kinds else "absent"
+        if kinds and kind.startswith("value:") and numeric_set_sym_target(B, kinds[0][1]):
+            kind += _C02_SET_SYM
+        out.bad("%s:reload:%s" % (tag, kind), C02_CONTRACTS[0],
                 "writer vs reloaded snapshot differ: %s; file:\n%s" % (_j(d), t1))
     for area in ("changed_defaults", "changed_choices", "promptless", "multi_sym", "multi_choice", "missing"):
         if diag[area]:
             first = diag[area][0]
             nm = first if isinstance(first, str) else first[0]
             t = "" if area in ("changed_choices", "multi_choice") else ":" + sym_tag(B, nm)
+            if area == "changed_defaults" and numeric_set_sym_target(B, nm):
+                t += _C02_SET_SYM
+            elif area in ("changed_defaults", "changed_choices"):
+                # The writer's state carried an injected default for exactly this option / choice (it had loaded or
+                # merged a tool-written file whose default-marked entries were stale for its user values, default
+                # policy sdkconfig): the written file marks the injected value as default and every load reports it
+                # again.  One root cause whatever the type: the class names the cause instead of the type.
+                if inj is None:
+                    inj = injected_state(A, w.kconf(tree))  # (the report of B was read above; B itself is not touched)
+                if area == "changed_defaults":
+                    hit = nm in inj
+                else:
+                    hit = any(key in inj and (c.name or "nameless") == nm
+                              for key, c in ((ckey(i, c.name), c) for i, c in enumerate(A.unique_choices)))
+                if hit:
+                    t = _C02_INJECTED
             out.bad("%s:diag:%s%s" % (tag, area, t), C02_CONTRACTS[1],
                     "loading the tool-written file reported %s = %s; file:\n%s" % (area, _j(diag[area]), t1))
     p2 = w.path("f2" + pfx.replace(":", "_"))
@@ -549,8 +574,9 @@ C08_CONTRACTS = [
 ]
 
 
-def _pair_compare(out, w, B, R, edits, tag, contract, ctx):
-    """Compare B and R now and after every edit; returns False after the first snapshot difference."""
+def _pair_compare(out, w, B, R, edits, tag, contract, ctx, value_cls=None):
+    """Compare B and R now and after every edit; returns False after the first snapshot difference.
+    'value_cls': class to report a snapshot difference under instead of tag:after-load|after-edit:<kind> (naming only)."""
     steps = [None] + list(edits)
     out.evals += len(steps)
     ustate_diff = None
@@ -563,7 +589,7 @@ def _pair_compare(out, w, B, R, edits, tag, contract, ctx):
         d = dict_diff(sb, sr)
         if d:
             kinds = sorted({diff_kind(B, n, x, y) for n, x, y in d})
-            out.bad("%s:%s:%s" % (tag, "after-load" if i == 0 else "after-edit", kinds[0]), contract,
+            out.bad(value_cls or "%s:%s:%s" % (tag, "after-load" if i == 0 else "after-edit", kinds[0]), contract,
                     "%s; after %s: full-file instance vs reference instance differ: %s" % (ctx, _j(steps[1:i + 1]), _j(d)))
             return False
         if ustate_diff is None and i == 0:
@@ -630,6 +656,12 @@ def check_c08(case, w, out):
     ents = [e for e in entries(text) if not e[3]]
     N0 = w.kconf(new)
     tag0 = "C08:changed" if changed else "C08:same"
+    # Naming only: the WRITER's state carried injected defaults (it had loaded / merged a tool-written file whose
+    # default-marked entries were stale for its user values, default policy sdkconfig).  The file then marks values as
+    # default that are not the tree's defaults, and under policy sdkconfig every load of it pins them again: one root
+    # cause, reported under one class whatever option shows the difference first (first clause, policy sdkconfig only;
+    # under policy kconfig such entries are ignored and the comparison keeps its usual classes).
+    winj = bool(injected_state(A, N0)) if not changed else False
     edit_seqs = case.get("edits") or [[]]
     mch = {}
     for n, raw, m, _ in ents:
@@ -696,7 +728,8 @@ def check_c08(case, w, out):
             lib("load_config(reference)", R.load_config, pr)
             if multi and _c08_sig(R) != sig_b and _c08_load_varies(out, w, new, policy, pf, sig_b, tag, ctx):
                 break  # the load itself has more than one outcome: comparing two instances says nothing
-            if not _pair_compare(out, w, B, R, edits, tag, contract, ctx):
+            if not _pair_compare(out, w, B, R, edits, tag, contract, ctx,
+                                 "%s:pinned-by-writer-injected-default" % tag if winj and policy == "sdkconfig" else None):
                 break
         if not changed:
             if any(m and has_prompt(N0, n) for n, _, m, _ in ents):
